@@ -63,10 +63,8 @@ def evaluate_here(req):
 
 
 def _zygote_main(tree, rfd, wfd):
-    import logging
     sys.path.insert(0, tree)
-    logging.disable(logging.CRITICAL)
-    import simple_ddl_parser  # noqa: F401
+    import simple_ddl_parser  # noqa: F401   (logging is left alone: fds 0-2 are /dev/null; the constructor's root config is real)
     try:
         import simple_ddl_parser.parsetab  # noqa: F401  (data only; builds no lexer / parser)
     except BaseException:  # noqa   a missing / broken cache is the library's business
